@@ -255,6 +255,12 @@ def h_get_coordinates(env):
         env.check("coordinates_are_x_plus_shift_%d" % i, vec_eq(env, list(c[i]), _pos(b)))
     c1 = m.get_coordinates(2.0)
     env.check("per_tomogram_selection", vec_eq(env, list(c1[0]), _pos(before[-1])) if len(c1) == 1 else env.not_(env.true()))
+    # a tomogram numbered 0 is a tomogram like any other
+    rows0 = [_sym_particle(env, "z0", tomo=0.0, sub=7.0), _second(3.0)]
+    m0 = mk_motl(env, cm, rows0)
+    b0 = [row(m0.df, i) for i in range(2)]
+    c0 = m0.get_coordinates(0.0)
+    env.check("tomogram_zero_selection", vec_eq(env, list(c0[0]), _pos(b0[0])) if len(c0) == 1 else env.not_(env.true()))
     rots = m.get_rotations()
     M = rots.as_matrix()
     for i, b in enumerate(before):
